@@ -250,7 +250,18 @@ def extra_coverage(model, results):
             'events': [e for e in eng.events][:40]}
 
 
-RULES = [rule_sinks]
+def _inl(rule):
+    """Run a rule on the view in which helpers that are new w.r.t. the
+    reference tree are inlined at their call sites (normalise.N2)."""
+    def run(model):
+        return rule(model.inlined_view())
+    run.__name__ = rule.__name__
+    return run
+
+
+INLINED_VIEW = False
+RULES_PLAIN = [rule_sinks]
+RULES = [_inl(r_) for r_ in RULES_PLAIN] if INLINED_VIEW else RULES_PLAIN
 EXPLANATION = (
     'Inter-procedural, path-sensitive taint analysis of the dtml-var '
     'pipeline with abstract kinds T/P/C/H/Q/O: the modifier loop is '
